@@ -62,6 +62,7 @@ SYNTAX_ERRORS = [
 
 
 BASE = "time_units: generations\ndemes:\n- name: A\n  epochs:\n  - {start_size: 100}\n"
+JSON_BASE = '{"time_units": "generations", "demes": [{"name": "A", "epochs": [{"start_size": 100, "end_time": 0}]}]}'
 DATED = BASE + "metadata: {when: 2001-12-14}\n"  # loads; the YAML dump works, the JSON dump raises half-way
 EDGES = [
     ("empty_document", "---\n"),
@@ -77,6 +78,14 @@ EDGES = [
     ("comment_between", BASE + "# c\n---\n# d\n" + BASE),
     ("json_infinity", '{"time_units": "generations", "demes": [{"name": "A", "start_time": "Infinity", '
                       '"epochs": [{"start_size": 1, "end_time": 0}]}]}'),
+    # documents that BEGIN like JSON but are YAML streams (JSON is a subset of YAML's flow style)
+    ("flow_yaml", "{time_units: generations, demes: [{name: A, epochs: [{start_size: 100}]}]}\n"),
+    ("json_then_end_marker", JSON_BASE + "\n...\n"),
+    ("json_then_comment", JSON_BASE + "\n# trailing comment\n"),
+    ("json_documents_stream_2", JSON_BASE + "\n---\n" + JSON_BASE + "\n"),
+    ("json_documents_stream_3", JSON_BASE + "\n---\n" + JSON_BASE + "\n---\n" + JSON_BASE.replace('"A"', '"B"') + "\n"),
+    ("flow_then_block_stream", "{time_units: generations, demes: [{name: A, epochs: [{start_size: 100}]}]}\n---\n" + BASE),
+    ("json_indented", "  " + JSON_BASE + "\n"),
 ]
 
 
